@@ -189,6 +189,11 @@ package nfsv4
 //@   assume scInv(oofs.shareCount, clonedShareAccess) && clonedShareAccess <= 3 -- established by shareCount.clone in the enclosing function before this callback is handed out
 //@   ensures every-owed-close-happens: vclosed(nil) == unsettled(nil)
 
+// Lock order: the lock of a file's byte-range lock table and the lock of the
+// opened-files pool are innermost (they are taken with a client's lock held).
+//@ leaflock OpenedFile.locksLock -- innermost lock: protects the byte-range lock table only
+//@ leaflock OpenedFilesPool.lock -- innermost lock: protects the pool's map and use counts only
+
 // The pool forgets a file, and with it its lock table, only when the last
 // user closes it.
 //@ func (*OpenedFile).Close
